@@ -105,7 +105,7 @@ func (g *gen) genStruct(depth int) *Struct {
 			f.Policy = []string{"", "", "replace"}[t.Choose(3, "struct-slice-policy")]
 			f.Sub = g.genStruct(depth + 1)
 		}
-		if k <= KStr && t.Chance(1, 5, "required") {
+		if (k <= KStr || k == KPInt || k == KPStr) && t.Chance(1, 5, "required") {
 			f.Required = true
 		}
 		if (k <= KDur || k == KSInt || k == KSStr) && !f.Required && t.Chance(1, 12, "ignored-field") {
@@ -140,6 +140,10 @@ func (g *gen) genCase(s *Struct, path string, depth int) *StructCase {
 		fc.Path = join(path, f.Name)
 		if boundable(f.Kind) && !f.Required {
 			fc.PreVar = t.Weighted([]int{4, 1, 1}, "prefill-variant")
+		}
+		if f.Required {
+			// the default of a required field: something, or the zero value (which does not satisfy it)
+			fc.PreVar = t.Weighted([]int{3, 1}, "required-prefill-variant")
 		}
 		if g.varexp && refable(f.Kind) && fc.Mention && t.Chance(1, 3, "by-reference") {
 			fc.Ref = true
